@@ -798,7 +798,10 @@ impl FrameSet {
     }
 
     fn get_all_frames(&self) -> HashMap<FrameIdentifier, FrameAttributes> {
-        self.frames.clone()
+        self.frames
+            .iter()
+            .map(|(identifier, attributes)| (identifier.clone(), attributes.clone()))
+            .collect()
     }
 
     /// Return a new `FrameSet` which describes only the given `FrameIdentifier`s.
